@@ -172,6 +172,11 @@ let run cmd (a : string array) : string =
       (match make_from_spec (zl a.(0)) t g recs with
        | Err -> "Err"
        | Ok l -> String.concat ";" (List.map s_out l))
+  (* format name (char codes, lower-cased)|has_qual *)
+  | "format" ->
+      let name = zl a.(0) in
+      (match detect_format name with None -> "none" | Some Fasta -> "fasta" | Some Fastq -> "fastq") ^ " " ^
+      (match output_format name (List.hd (ints a.(1)) <> 0) with Fasta -> "fasta" | Fastq -> "fastq")
   (* trace W|C|bad chunk indices|rfail ("" or k)|event;event;...|ffail (0/1) *)
   | "trace" ->
       let w = nat_of_int (List.hd (ints a.(0))) and c = nat_of_int (List.hd (ints a.(1))) in
